@@ -563,8 +563,14 @@ class ScenarioGen:
                   u is not Underground.UNKNOWN]
         geo = None
         if self.cyc([True, False]):
-            geo = GeoTransformation(r.choice(["+proj=utm +zone=32 +ellps=WGS84", "EPSG:4326"]), self.real(), self.real(),
-                                    self.angle(), self.positive())
+            # every subset of the four parameters of the additional transformation at its neutral value (0, 0, 0, 1): a
+            # pure scaling, a pure rotation, a pure translation, the identity, ...
+            mask = (self.i // 2) % 16
+            vals = [self.real(), self.real(), self.angle(), self.positive()]
+            vals = [v if mask >> b & 1 else (0.0, 0.0, 0.0, 1.0)[b] for b, v in enumerate(vals)]
+            geo = GeoTransformation(r.choice(["+proj=utm +zone=32 +ellps=WGS84", "EPSG:4326"]), *vals)
+            self.feat("geo-transformation.non-neutral-parameters=%s" % "".join(
+                n for b, n in enumerate("xyrs") if mask >> b & 1))
         env = None
         if self.cyc([True, True, False]):
             env = Environment(Time(r.randint(0, 23), r.randint(0, 59)), self.cyc(tods), self.cyc(weathers),
